@@ -10,6 +10,12 @@ def _replace(__obj, **changes):
 
     # Fix https://bugs.python.org/issue36470
     assert is_dataclass(__obj)
+    # InitVar are not fields, so they are not tracked (as in the constructor)
+    changed_fields = [
+        name
+        for name in changes
+        if getattr(__obj, _FIELDS)[name]._field_type != _FIELD_INITVAR
+    ]
     for name, field in getattr(__obj, _FIELDS).items():
         if field._field_type == _FIELD_INITVAR and name not in changes:
             if field.default is not MISSING:
@@ -19,7 +25,7 @@ def _replace(__obj, **changes):
 
     result = replace_(__obj, **changes)
     if hasattr(__obj, FIELDS_SET_ATTR):
-        set_fields(result, *fields_set(__obj), *changes, overwrite=True)
+        set_fields(result, *fields_set(__obj), *changed_fields, overwrite=True)
     return result
 
 
